@@ -24,14 +24,28 @@ def run(prop, tier):
     depth["stream-fd"] = depth["stream"] - 1; depth["dgram-fd"] = depth["dgram"] - 1
     jobs += [("stream-fd", 4), ("dgram-fd", 6)]
 
+    netns = subprocess.call([xr, "netns-probe"], stdout=subprocess.DEVNULL, stderr=subprocess.DEVNULL) == 0
+
     def one(j):
         k, f = j
         tf = os.path.join(common.SCRATCH, "c10_traces_%s_%d_%d.txt" % (k, f, os.getpid()))
         common.run_harness(xk, ["explore", k, f, depth[k], tf], acc, "sock_bfs[ksim] %s IPv%d depth %d" % (k, f, depth[k]), timeout=7000, crash_prop=prop)
         if acc.viols:
             return          # the model run already decided; a broken library may hang on the real kernel
-        # conformance: the same traces on the real kernel; a mismatch is a KSIM bug = engine error (exit 2), never a verdict
-        common.run_harness(xr, ["check", k, f, depth[k], tf], acc, "sock_bfs[real] %s IPv%d conformance" % (k, f), timeout=7000, crash_prop=prop)
+        # conformance: the same traces on the real kernel; a mismatch is a KSIM bug = engine error (exit 2), never a verdict.
+        # Two replays on the same protocol and family must not overlap in time, in this run or in another run on this machine: the library binds with
+        # SO_REUSEADDR, so the kernel may hand two such sockets the same ephemeral port and the later listen() fails.  One lock file per protocol/family.
+        # One lock file per protocol/family - unless the replay can run in a network namespace of its own (own ports, own TIME_WAIT table), which it does if allowed.
+        import fcntl
+        lf = None
+        if not netns:
+            lf = open("/var/tmp/.verif-c10-%s%d.lock" % (k[:3], f), "w")
+            fcntl.flock(lf, fcntl.LOCK_EX)
+        try:
+            common.run_harness(xr, ["check", k, f, depth[k], tf], acc, "sock_bfs[real] %s IPv%d conformance" % (k, f), timeout=7000, crash_prop=prop)
+        finally:
+            if lf:
+                fcntl.flock(lf, fcntl.LOCK_UN); lf.close()
         try:
             os.unlink(tf)
         except OSError:
